@@ -474,6 +474,18 @@ theorem locate_file_uncached_once_per_request {rc : RCfg} (hwf : rc.WF) (sched :
     callCount (privSlot rc t j p) (rexec rc sched).log = 1 :=
   g_exactly_once_final (toICfg rc) sched hfin _ (priv_mem_allKeys hwf ht hp hq hc)
 
+/-- **C12.8e'** the private slot of a `get_file_path` request is never contended: no task is ever
+    suspended on its lock, in any schedule — the modelled lookup is a plain call of
+    `supplier.locate_file`, exactly what `Symbolizer::get_file_path` does -/
+theorem uncached_call_is_plain (rc : RCfg) (sched : List Nat) {t j p : Nat} (ht : t < rc.T)
+    (hp : p < rc.P) (u : Nat) (i : Item) (hw : ((rexec rc sched).task u).ctl = .waiting i) :
+    i.slot ≠ privSlot rc t j p := by
+  intro he
+  have h := private_slot_never_waited (rc := rc) sched (j := j) ht hp u
+  rw [← rexec_abs] at h
+  apply h
+  simp only [absS_task, absT, hw, he]
+
 /-- non-vacuity, and the contrast between the two: two tasks ask for the same file of the same
     module. A supplier without a cache is called twice (two private slots), one with a cache once. -/
 example :
